@@ -8,12 +8,13 @@ INF = float("inf")
 
 FEATURES = {
     # identifier spellings (applied to the first metabolite / reaction / gene / group)
-    "met_id": ["A_c", "1A_c", "A.b_c", "A-b_c", "A:b_c", "A/b_c", "M_A_c", "A__46__b_c", "A[c]", "A_c_e", "a(b)_c", "A'b_c"],
-    "rxn_id": ["R1", "1R", "R.1", "R-1", "R:1", "R/1", "R_R1", "R__45__1", "R1[c]", "EX_R1(e)", "R;1"],
+    "met_id": ["A_c", "1A_c", "A.b_c", "A-b_c", "A:b_c", "A/b_c", "M_A_c", "A__46__b_c", "A[c]", "A_c_e", "a(b)_c", "A'b_c",
+               "\u03b1-kg_c"],   # a non-ASCII letter
+    "rxn_id": ["R1", "1R", "R.1", "R-1", "R:1", "R/1", "R_R1", "R__45__1", "R1[c]", "EX_R1(e)", "R;1", "R1-\u03b2"],
     "gene_id": ["g1", "1g", "g.1", "g-1", "g:1", "b0001", "G_g1", "g__46__1", "if", "g/1",
                 # valid SBML identifiers that libsbml's infix parser reads as constants
-                "pi", "true", "nan"],
-    "group_id": ["grp1", "1grp", "grp.1", "G_grp1", "g1", "grp-1"],
+                "pi", "true", "nan", "lpd\u00c5"],
+    "group_id": ["grp1", "1grp", "grp.1", "G_grp1", "g1", "grp-1", "grp\u00e9"],
     "bounds": [(0, 1000), (-1000, 1000), (0, 0), (-INF, INF), (5.5, 20), (-2000, 1000), (0, 3000), (2000, 3000),
                (0, INF), (-1000, -5), (-INF, 0), (1e-7, 0.3333333333333333)],
     "objective": ["one", "none", "two", "noninteger", "min", "negative_min"],
